@@ -71,14 +71,22 @@ def requestOf (t : Target) (r : String) : Option Request :=
     | .coo _ => some { firstIndex := some i }
     | .csc _ => some { order := some (CscOrder.ofCode i) }
 
-def runConv (r : Sparsity) (t : Target) (req : Request) : String :=
+/-- value of source slot `i` in call `k` of a sequence (`harness/c14.cpp`: `kBase`) -/
+def callBase : Nat → Int
+  | 0 => 0 | 1 => 100 | _ => 50
+
+/-- `ncalls` value conversions.  The model's `cv.vals` is a pure function of the value array, so
+    every call of a sequence on one converter is answered from its own value array alone. -/
+def runConv (r : Sparsity) (t : Target) (req : Request) (ncalls : Nat) : String :=
   match convert (0 : Int) r t req with
   | .error e => s!"E1 {errName e}"
   | .ok cv =>
-    let v : List Int := (List.range r.nnz).map fun (i : Nat) => (i : Int) + 1
-    match cv.vals v with
-    | .error e => s!"ok {fmtPattern cv.out} E2 {errName e}"
-    | .ok v' => s!"ok {fmtPattern cv.out} vals {r.nnz} {fmtInts v'}"
+    let blocks := (List.range ncalls).map fun k =>
+      let v : List Int := (List.range r.nnz).map fun (i : Nat) => callBase k + (i : Int) + 1
+      match cv.vals v with
+      | .error e => s!"E2 {errName e}"
+      | .ok v' => s!"vals {r.nnz} {fmtInts v'}"
+    s!"ok {fmtPattern cv.out} " ++ String.intercalate " | " blocks
 
 def c14Step (_ : Unit) (line : String) : Unit × String :=
   let ts := tokens line
@@ -86,12 +94,12 @@ def c14Step (_ : Unit) (line : String) : Unit × String :=
     match ts with
     | ["feature"] => some s!"have_coo_csc {if Gen.C14.haveCooCscConversions then 1 else 0}"
     | op :: to :: rq :: rest =>
-      if op = "cv" ∨ op = "cw" then
+      if op = "cv" ∨ op = "cw" ∨ op = "sv" ∨ op = "sw" then
         match targetOf? to with
         | none => some "bad-op"
         | some t =>
           match requestOf t rq, run source rest with
-          | some req, some r => some (runConv r t req)
+          | some req, some r => some (runConv r t req (if op = "sv" ∨ op = "sw" then 3 else 1))
           | _, _ => none
       else some "bad-op"
     | _ => some "bad-op"
